@@ -231,6 +231,54 @@ for _nm in ('line_x', 'line_y', 'positive_line_x', 'positive_line_y', 'random', 
     _distribution_contract(_nm)
 
 
+def _counts(ct, tier, seed):
+    """bounded: the documented number of points for *every* count argument up to a bound (the symbolic contracts above enumerate
+    1..9 only; a count computed in floating point can be off by one at isolated larger values), all points inside the unit pupil"""
+    import time
+    import numpy as np
+    from pyvc import twin
+    D = twin.real('optiland.distribution')
+    t0 = time.time()
+    clauses, fails, cases = {}, [], 0
+
+    def note(cid, ok, detail, inputs):
+        c_ = clauses.setdefault(cid, {'paths': 0, 'proved': 0, 'backends': {}, 'failed': [], 'seconds': 0.0, 'bounded': True})
+        c_['paths'] += 1
+        if ok:
+            c_['proved'] += 1
+            c_['backends']['runtime'] = c_['backends'].get('runtime', 0) + 1
+        elif len(fails) < 10:
+            fails.append({'clause': cid, 'draws': inputs, 'note': detail})
+    big = 600 if tier == 'quick' else 4096
+    bounds = {'line_x': big, 'line_y': big, 'positive_line_x': big, 'positive_line_y': big, 'random': big, 'ring': big, 'cross': big,
+              'hexapolar': 40 if tier == 'quick' else 90, 'uniform': 64 if tier == 'quick' else 160}
+    for name, nmax in bounds.items():
+        for n in range(1, nmax + 1):
+            d = D.create_distribution(name)
+            d.generate_points(n)
+            cases += 1
+            x, y = np.asarray(d.x, dtype=float), np.asarray(d.y, dtype=float)
+            if name == 'uniform':
+                g = np.linspace(-1, 1, n)
+                want = int(np.count_nonzero(g[:, None] ** 2 + g[None, :] ** 2 <= 1))
+            else:
+                want = _expected_count(name, n)
+            note('C03.distribution.documented_count_for_every_count_argument', len(x) == want and len(y) == want,
+                 '%s(%d): %d points, documented %d' % (name, n, len(x), want), {'distribution': name, 'num_points': n})
+            note('C03.distribution.every_point_inside_unit_pupil_for_every_count_argument', bool(np.all(x * x + y * y <= 1 + 1e-12)),
+                 '%s(%d)' % (name, n), {'distribution': name, 'num_points': n})
+    return {'contract': ct.name, 'functions': ct.functions, 'props': ct.props,
+            'symbolic': {'clauses': clauses, 'paths': 0, 'errors': [], 'solver_s': 0.0, 'samples': [], 'wd_assumed': [], 'assumed': []},
+            'numeric': {'accepted': cases, 'rejected': 0, 'failures': fails[:10], 'concolic_agree': 0, 'encoder_mismatches': [],
+                        'samples': [{'bounds': bounds}]}, 'wall_s': time.time() - t0}
+
+
+contract('C03.runtime.counts', [DI + ':create_distribution', DI + ':RingDistribution.generate_points', DI + ':LineXDistribution.generate_points',
+                                DI + ':LineYDistribution.generate_points', DI + ':RandomDistribution.generate_points',
+                                DI + ':UniformDistribution.generate_points', DI + ':HexagonalDistribution.generate_points',
+                                DI + ':CrossDistribution.generate_points'], ['C03'], custom=_counts)(lambda c: None)
+
+
 @contract('C03.distribution.gaussian_quadrature', [DI + ':GaussianQuadrature.generate_points', DI + ':GaussianQuadrature._get_radius'],
           ['C03'], max_paths=4, concolic=False)
 def gq(c):
